@@ -4,7 +4,6 @@
 
    A class is a pattern of the history evaluated against the reference tree
    (FsSpec) as the history unfolds:
-     KOpenOptsInvalid  open with an option combination std::fs::OpenOptions rejects
      KRootOp           open/spit/unlink/mkdir/rmdir/rename naming "/" itself
      KRenameSelf       rename of a regular file onto its own path
      KRenameFile       rename whose source is a regular file
@@ -18,11 +17,11 @@ From TV.Fs Require Import FsImpl FsSpec.
 Open Scope N_scope.
 
 Inductive klass :=
-| KOpenOptsInvalid | KRootOp | KRenameSelf | KRenameFile | KRenameDir | KStaleHandle | KRecreate.
+| KRootOp | KRenameSelf | KRenameFile | KRenameDir | KStaleHandle | KRecreate.
 
 Definition klass_eqb (a b : klass) : bool :=
   match a, b with
-  | KOpenOptsInvalid, KOpenOptsInvalid | KRootOp, KRootOp | KRenameSelf, KRenameSelf
+  | KRootOp, KRootOp | KRenameSelf, KRenameSelf
   | KRenameFile, KRenameFile | KRenameDir, KRenameDir | KStaleHandle, KStaleHandle
   | KRecreate, KRecreate => true
   | _, _ => false
@@ -47,8 +46,7 @@ Definition when (b : bool) (k : klass) : list klass := if b then [k] else [].
 Definition op_classes (t : sworld) (gone : list path) (o : op) : list klass :=
   match o with
   | Open _ p r w a tr c n =>
-      when (negb (valid_open r w a tr c n)) KOpenOptsInvalid
-      ++ when (is_root p) KRootOp
+      when (is_root p) KRootOp
       ++ when (match nget (names t) p with None => (c || n) && mem_path p gone | _ => false end) KRecreate
   | Spit p _ _ =>
       when (is_root p) KRootOp
@@ -96,7 +94,7 @@ Definition c10_op (o : op) : bool :=
    cross-check against gen/fam_fs.py history_features) *)
 Definition klass_id (k : klass) : N :=
   match k with
-  | KOpenOptsInvalid => 0 | KRootOp => 1 | KRenameSelf => 2 | KRenameFile => 3
+  | KRootOp => 1 | KRenameSelf => 2 | KRenameFile => 3
   | KRenameDir => 4 | KStaleHandle => 5 | KRecreate => 6
   end.
 Definition host_ops (h : nat) (l : list (nat * op)) : list op :=
